@@ -199,6 +199,14 @@ def discharge(site, facts=None):
         a, b = site.operands
         if known_ge(body, bb, a, b):
             return "minuend >= subtrahend on every path"
+        if facts is not None:
+            # `self.skip -= consume_up_to(window, self.skip)`: a local helper whose single return is min(.., its parameter)
+            b2 = expand_local_call(facts, b)
+            if b2 is not b and known_ge(body, bb, a, b2):
+                return "subtrahend is a local helper's result, which is min(.., minuend)"
+            b3 = expand_variant_payload(facts, b)
+            if b3 is not None and known_ge(body, bb, a, b3):
+                return "subtrahend is the payload a local helper returns, which is min(.., minuend)"
         if facts is not None and known_ge_at_callers(facts, body, a, b):
             return "minuend >= subtrahend established at every call site of this helper"
         pb = peel(b, through_try=False)
@@ -322,6 +330,8 @@ def discharge(site, facts=None):
             elif pi.adt == "std::ops::RangeFrom":
                 start = pi.args[0]
             ok_end = end is None or known_ge(body, bb, lenc, end)
+            if not ok_end and facts is not None and start is None and known_ge_at_callers(facts, body, lenc, end):
+                ok_end = True       # `window.slice()[..samples]` in a helper whose callers pass samples <= window.len()
             if start is None:
                 ok_start = True
             elif end is None:
@@ -342,6 +352,23 @@ def discharge(site, facts=None):
                     if _container_root(pa_.args[0]) is not None and _container_root(pa_.args[0]) == _container_root(ec) \
                             and known_ge(body, bb, lenc, E("const", v=1, ty="usize")):
                         return "index = len()/c of a container established non-empty"
+            # index drawn from `lo..hi` (a `for i in 0..n` loop): need len >= hi
+            x_ = pi
+            n_ = 0
+            while x_ is not None and n_ < 6 and x_.k in ("field", "downcast"):
+                x_ = peel(x_.a, through_try=False)
+                n_ += 1
+            if x_ is not None and x_.k == "call" and (x_.q or "").endswith("Iterator::next") and x_.args:
+                it = x_.args[0]
+                rng_ = None
+                for y in walk(it):
+                    if y.k == "agg" and y.adt == "std::ops::Range" and len(y.args) == 2:
+                        rng_ = y
+                        break
+                if rng_ is not None and not any(y.k == "call" and (y.q or "").split("::")[-1] in ("map", "rev", "step_by", "chain", "zip", "flat_map", "skip")
+                                                for y in walk(it)):
+                    if known_ge(body, bb, lenc, rng_.args[1]):
+                        return "index drawn from lo..hi with this container's len() >= hi"
             # scalar index: need index < len
             for edge, f in facts_at_e(body, bb):
                 if f[0] in ("Lt", "Gt"):
